@@ -11,6 +11,7 @@ import FlatccModel.Layout
 import FlatccModel.Trie
 import FlatccModel.TrieGen
 import FlatccModel.Base64
+import FlatccModel.CharArray
 import FlatccModel.JsonScan
 import FlatccModel.Builder
 import FlatccModel.Alloc
@@ -582,11 +583,33 @@ def jscanOp (args : List String) : String :=
       s!"{head} p{p} m{if more then 1 else 0} u{if c'.unquoted then 1 else 0} l{c'.line} c{c'.pos}"
   | _ => "bad-op"
 
+/-- chararr <N> <flags> <hex-text> / chararrp <hex-array>: see OUT/h_chararr.c (FlatccModel/CharArray.lean).
+A call that returns without recording an error prints as `ok`; bytes it did not store keep the harness prefill 0xEE. -/
+def chararrOp (op : String) (args : List String) : String :=
+  open Flatcc.CharArray in
+  match op, args with
+  | "chararr", [n, fl, hex] =>
+    let N := natArg n
+    let f : Flags := ⟨natArg fl % 2 == 1, natArg fl / 2 % 2 == 1⟩
+    let text := hexToBytes hex
+    (match charArrayG N f text with
+     | .ok (w, rest) => s!"ok {bytesToHex w} {text.length - rest.length}"
+     | .error .overflow => "err overflow"
+     | .error .underflow => "err underflow"
+     | .error (.silentEnd w) => s!"ok {bytesToHex (w ++ List.replicate (N - w.length) 0xEE)} {text.length}"
+     | .error .writeOutside => "err write-outside"
+     | .error _ => "err other")
+  | "chararrp", [hex] => bytesToHex (printCharArray (hexToBytes hex))
+  | _, _ => "bad-op"
+
+
 def step (line : String) : String :=
   match line.trimAscii.toString.splitOn " " with
   | "num" :: args => numOp args
   | "build" :: args => buildOp args
   | "b64" :: args => b64Op args
+  | "chararr" :: args => chararrOp "chararr" args
+  | "chararrp" :: args => chararrOp "chararrp" args
   | "jscan" :: args => jscanOp args
   | "alloc" :: args => allocOp args
   | "sgraph" :: args => sgraphOp args
